@@ -1,0 +1,204 @@
+//go:build verif
+
+package os
+
+// Contracts for package os (risor's OS abstraction), checked by /verif/govc. Property C13.
+
+//@ spec within(b, p) = p == b || prefixof(b + "/", p)
+//@ spec confined(b, p) = b == "" || b == "/" || within(b, p)
+//@ spec noDD(p) = uf("noDD", bool, p)
+//@ spec isclean(p) = uf("isclean", bool, p)
+//@ spec curBase() = uf("curBase", string)
+
+// ---- assumed contracts on path/filepath (validated bounded against the real package, see DESIGN §3 C13) ----
+
+//@ external path/filepath.Clean
+//@ uf
+//@ ensures isclean(result)
+//@ ensures !prefixof("..", result) ==> noDD(result)
+//@ ensures isclean(path) && path != "" ==> result == path
+
+//@ external path/filepath.Join
+//@ ensures len(elem) == 2 ==> result == uf("join2", string, elem[0], elem[1])
+//@ ensures len(elem) == 2 && noDD(elem[1]) && isclean(elem[0]) && elem[0] != "" && elem[0] != "/" ==> within(elem[0], result)
+//@ ensures result == "" || isclean(result)
+//@ ensures len(elem) == 2 ==> forallT(s, FS, routed(s, elem[0]) ==> routed(s, result))
+
+//@ external path/filepath.IsAbs
+//@ ensures result == prefixof("/", path)
+
+// ---- ResolvePath ---------------------------------------------------------------------------------------
+
+//@ func ResolvePath
+//@ props C13
+//@ requires base == "" || isclean(base)
+//@ modifies nothing
+//@ ensures[C13.resolve.confined] err == nil ==> confined(base, result)
+//@ ensures[C13.resolve.reject]   err != nil <==> prefixof("..", uf("path/filepath.Clean", string, path))
+
+// ---- VirtualOS mounts -----------------------------------------------------------------------------------
+
+//@ spec cprefix(k, p) = prefixof(k, p) && (len(p) == len(k) || suffixof("/", k) || p[len(k)] == '/')
+//@ spec mountsWF(o) = forallT(k, string, haskey(o.mounts, k) ==> o.mounts[k] != nil && o.mounts[k].Target == k)
+//@ spec vabs(o, path) = ite(prefixof("/", path), path, uf("join2", string, o.cwd, path))
+//@ spec vclean(o, path) = uf("path/filepath.Clean", string, vabs(o, path))
+//@ spec vpath(o, path) = ite(suffixof("/", path) && vclean(o, path) != "/", vclean(o, path) + "/", vclean(o, path))
+//@ spec routed(src, rel) = uf("routed", bool, src, rel)
+
+//@ func (*VirtualOS).findMount
+//@ props C13
+//@ requires osObj != nil && mountsWF(osObj)
+//@ modifies nothing
+//@ let pp = vpath(osObj, path)
+//@ let ms = osObj.mounts
+//@ invariant 1: match != nil ==> haskey(ms, match.Target) && ms[match.Target] == match && cprefix(match.Target, pp)
+//@ invariant 1: forallT(k, string, seen(k) && haskey(ms, k) && cprefix(k, pp) ==> match != nil && len(k) <= len(match.Target))
+//@ invariant 1: forallT(k, string, seen(k) ==> k != pp)
+//@ ensures[C13.mount.member]  result2 ==> result0 != nil && haskey(ms, result0.Target) && ms[result0.Target] == result0
+//@ ensures[C13.mount.cprefix] result2 ==> cprefix(result0.Target, pp)
+//@ ensures[C13.mount.longest] result2 ==> forallT(k, string, haskey(ms, k) && cprefix(k, pp) ==> len(k) <= len(result0.Target))
+//@ ensures[C13.mount.rel]     result2 ==> result1 == ite(substr(pp, len(result0.Target), len(pp) - len(result0.Target)) == "", "/", substr(pp, len(result0.Target), len(pp) - len(result0.Target)))
+//@ ensures[C13.mount.none]    !result2 ==> forallT(k, string, haskey(ms, k) ==> !cprefix(k, pp))
+//@ ghostensures result2 ==> routed(result0.Source, result1)
+
+//@ func hasPathPrefix
+//@ props C13
+//@ safety
+//@ modifies nothing
+//@ ensures[C13.mount.cprefix.def] result == cprefix(prefix, path)
+
+// ---- routing: a Source method may only be invoked on the mount findMount returned, with the relative
+// path it returned (routed is a ghost relation defined by findMount's results) ---------------------------
+
+//@ func (FS).Create
+//@ trusted
+//@ requires[C13.mount.route] routed(self, name)
+//@ func (FS).Mkdir
+//@ trusted
+//@ requires[C13.mount.route] routed(self, name)
+//@ func (FS).MkdirAll
+//@ trusted
+//@ requires[C13.mount.route] routed(self, path)
+//@ func (FS).Open
+//@ trusted
+//@ requires[C13.mount.route] routed(self, name)
+//@ func (FS).OpenFile
+//@ trusted
+//@ requires[C13.mount.route] routed(self, name)
+//@ func (FS).ReadFile
+//@ trusted
+//@ requires[C13.mount.route] routed(self, name)
+//@ func (FS).Remove
+//@ trusted
+//@ requires[C13.mount.route] routed(self, name)
+//@ func (FS).RemoveAll
+//@ trusted
+//@ requires[C13.mount.route] routed(self, path)
+//@ func (FS).Rename
+//@ trusted
+//@ requires[C13.mount.route.old] routed(self, oldpath)
+//@ requires[C13.mount.route.new] routed(self, newpath)
+//@ func (FS).Stat
+//@ trusted
+//@ requires[C13.mount.route] routed(self, name)
+//@ func (FS).Symlink
+//@ trusted
+//@ requires[C13.mount.route.old] routed(self, oldname)
+//@ requires[C13.mount.route.new] routed(self, newname)
+//@ func (FS).WriteFile
+//@ trusted
+//@ requires[C13.mount.route] routed(self, name)
+//@ func (FS).ReadDir
+//@ trusted
+//@ requires[C13.mount.route] routed(self, name)
+//@ func (FS).WalkDir
+//@ trusted
+//@ requires[C13.mount.route] routed(self, root)
+
+//@ spec vosInv(o) = o != nil && mountsWF(o)
+//@ func (*VirtualOS).Create
+//@ props C13
+//@ requires vosInv(osObj)
+//@ func (*VirtualOS).Mkdir
+//@ props C13
+//@ requires vosInv(osObj)
+//@ func (*VirtualOS).MkdirAll
+//@ props C13
+//@ requires vosInv(osObj)
+// MkdirTemp creates the directory below the temp directory's path inside the mount findMount returned (KF-23
+// fixed). Assumed (stated with filepath.Join): a path built by joining a name onto a routed directory of a mount
+// source is routed to that source (a deeper mount shadowing the new name is not modelled).
+//@ func (*VirtualOS).MkdirTemp
+//@ props C13
+//@ requires vosInv(osObj)
+//@ func (*VirtualOS).Open
+//@ props C13
+//@ requires vosInv(osObj)
+//@ func (*VirtualOS).OpenFile
+//@ props C13
+//@ requires vosInv(osObj)
+//@ func (*VirtualOS).ReadFile
+//@ props C13
+//@ requires vosInv(osObj)
+//@ func (*VirtualOS).Remove
+//@ props C13
+//@ requires vosInv(osObj)
+//@ func (*VirtualOS).RemoveAll
+//@ props C13
+//@ requires vosInv(osObj)
+//@ func (*VirtualOS).Rename
+//@ props C13
+//@ requires vosInv(osObj)
+//@ func (*VirtualOS).Stat
+//@ props C13
+//@ requires vosInv(osObj)
+//@ func (*VirtualOS).Symlink
+//@ props C13
+//@ requires vosInv(osObj)
+//@ func (*VirtualOS).WriteFile
+//@ props C13
+//@ requires vosInv(osObj)
+//@ func (*VirtualOS).ReadDir
+//@ props C13
+//@ requires vosInv(osObj)
+//@ func (*VirtualOS).WalkDir
+//@ props C13
+//@ requires vosInv(osObj)
+
+// ---- C12: the OS travels in the context ---------------------------------------------------------------------
+// Assumed model of package context: a context is an immutable key/value chain.
+//   ctx.val(c, k)   the value Value(k) returns for context c
+//@ external context.WithValue
+//@ requires key != nil
+//@ modifies nothing
+//@ ensures result != nil && uf("ctx.val", any, result, key) == val && forallA(k, any, k != key ==> uf("ctx.val", any, result, k) == uf("ctx.val", any, parent, k))
+
+//@ external context.(Context).Value
+//@ modifies nothing
+//@ ensures result == uf("ctx.val", any, self, key)
+
+// ctxos(c): the OS a builtin will find in context c (nil interface when there is none).
+//@ spec ctxos(c) = uf("ctx.val", any, c, any(osKey))
+//@ spec hasos(c) = ctxos(c) != nil && implements(ctxos(c), OS)
+
+//@ func WithOS
+//@ props C12
+//@ modifies nothing
+//@ ensures[C12.withos] result != nil && ctxos(result) == any(osObj)
+//@ ensures[C12.withos.others] forallA(k, any, k != any(osKey) ==> uf("ctx.val", any, result, k) == uf("ctx.val", any, ctx, k))
+
+//@ func GetOS
+//@ props C12
+//@ requires ctx != nil
+//@ modifies nothing
+//@ ensures[C12.getos] result1 == hasos(ctx) && (result1 ==> any(result0) == ctxos(ctx)) && (!result1 ==> result0 == nil)
+
+// GetDefaultOS: the context's OS when it carries one; only otherwise a SimpleOS (the real operating system).
+//@ func GetDefaultOS
+//@ props C12
+//@ requires ctx != nil
+//@ ensures[C12.defaultos] hasos(ctx) ==> any(result) == ctxos(ctx)
+//@ ensures[C12.defaultos.fallback] !hasos(ctx) ==> typeof(result) == *SimpleOS && fresh(result)
+
+// globalScriptargs: set once by the command line front end before any evaluation (SetScriptArgs).
+//@ scan[C09.globals.os] C09 pkgglobals github.com/risor-io/risor/os: globalScriptargs<-SetScriptArgs
